@@ -66,16 +66,53 @@ func (a linExpr) String() string {
 }
 
 type prover struct {
-	fn     *ssa.Function
-	atoms  map[string]string    // atom key -> readable
-	loads  map[string]*ssa.UnOp // canonical load per key
-	facts  []linExpr            // each: expr >= 0
-	seenV  map[ssa.Value]bool
-	notes  []string
-	fset   *token.FileSet
-	depth  int
-	bounds map[string]bool
-	subst  map[ssa.Value]ssa.Value // parameter → actual argument (caller-side discharge)
+	fn         *ssa.Function
+	atoms      map[string]string    // atom key -> readable
+	loads      map[string]*ssa.UnOp // canonical load per key
+	facts      []linExpr            // each: expr >= 0
+	seenV      map[ssa.Value]bool
+	notes      []string
+	fset       *token.FileSet
+	depth      int
+	bounds     map[string]bool
+	subst      map[ssa.Value]ssa.Value // parameter → actual argument (caller-side discharge)
+	pendingNE  [][2]linExpr
+	idxPending []ssa.Value
+	inRefresh  bool
+}
+
+// refresh turns pending disequalities into inequalities once one side is known to bound the other.
+func (p *prover) refresh() {
+	if p.inRefresh {
+		return
+	}
+	p.inRefresh = true
+	defer func() { p.inRefresh = false }()
+	one := newLin(1)
+	for changed := true; changed; {
+		changed = false
+		var rest [][2]linExpr
+		for _, ne := range p.pendingNE {
+			a, b := ne[0], ne[1]
+			switch {
+			case p.proveRaw(a.add(b, -1)):
+				p.ge(a.add(one, -1), b)
+				changed = true
+			case p.proveRaw(b.add(a, -1)):
+				p.ge(b.add(one, -1), a)
+				changed = true
+			default:
+				rest = append(rest, ne)
+			}
+		}
+		p.pendingNE = rest
+		if changed {
+			vals := p.idxPending
+			for _, v := range vals {
+				p.indexPost(v)
+			}
+		}
+	}
 }
 
 func newProver(fn *ssa.Function) *prover {
@@ -120,8 +157,57 @@ func typeRange(t types.Type) (lo, hi *int64) {
 }
 
 // pureCallee: calls that cannot write memory reachable from the analysed function's objects.
+// modPure: a module function that writes no memory other than its own locals and calls only pure functions.
+var modPureMemo = map[*ssa.Function]int{}
+
+func modPure(f *ssa.Function, depth int) bool {
+	if f == nil || len(f.Blocks) == 0 || depth > 4 {
+		return false
+	}
+	switch modPureMemo[f] {
+	case 1:
+		return true
+	case 2:
+		return false
+	case 3:
+		return true // recursion: assume pure while checking
+	}
+	modPureMemo[f] = 3
+	pure := true
+	allInstrs(f, func(in ssa.Instruction) {
+		if !pure {
+			return
+		}
+		switch t := in.(type) {
+		case *ssa.Store:
+			if _, local := rootOf(t.Addr).(*ssa.Alloc); !local {
+				pure = false
+			}
+		case *ssa.MapUpdate, *ssa.Send, *ssa.Go, *ssa.Defer, *ssa.Panic:
+			pure = false
+		case *ssa.Call:
+			if pureCallee(&t.Call) {
+				return
+			}
+			g := t.Call.StaticCallee()
+			if g == nil || !isModFunc(g) || !modPure(g, depth+1) {
+				pure = false
+			}
+		}
+	})
+	if pure {
+		modPureMemo[f] = 1
+	} else {
+		modPureMemo[f] = 2
+	}
+	return pure
+}
+
 func pureCallee(c *ssa.CallCommon) bool {
 	if _, ok := c.Value.(*ssa.Builtin); ok {
+		return true
+	}
+	if f := c.StaticCallee(); f != nil && isModFunc(f) && modPureMemo[f] != 3 && modPure(f, 0) {
 		return true
 	}
 	n := calleeName(c)
@@ -501,6 +587,10 @@ func (p *prover) lenOf(x ssa.Value) linExpr {
 		return p.lenOf(t.X)
 	case *ssa.MakeSlice:
 		return p.lin(t.Len)
+	case *ssa.BinOp:
+		if t.Op == token.ADD && isSeqType(t.Type()) {
+			return p.lenOf(t.X).add(p.lenOf(t.Y), 1)
+		}
 	case *ssa.Call:
 		switch calleeName(&t.Call) {
 		case "(*bytes.Buffer).Bytes", "(*bytes.Buffer).String":
@@ -511,8 +601,8 @@ func (p *prover) lenOf(x ssa.Value) linExpr {
 			key := "len:" + p.atomFor(x)
 			p.atoms[key] = "len(" + describe(x) + ")"
 			e := p.atomLin(key)
-			p.fact(e)                                   // >= 0
-			p.ge(p.lenOf(t.Call.Args[0]), e)            // never longer than the argument
+			p.fact(e)                        // >= 0
+			p.ge(p.lenOf(t.Call.Args[0]), e) // never longer than the argument
 			return e
 		}
 	}
@@ -896,12 +986,10 @@ func (p *prover) addGuard(g guardInfo) {
 			p.ge(a, b)
 			p.ge(b, a)
 		case token.NEQ:
-			// x != c where x >= c is known (e.g. index != -1): x >= c+1
-			if p.prove(a.add(b, -1)) {
-				p.ge(a.add(one, -1), b)
-			} else if p.prove(b.add(a, -1)) {
-				p.ge(b.add(one, -1), a)
-			}
+			// x != c where x >= c is known (e.g. index != -1): x >= c+1.  Decided lazily, since the
+			// supporting fact (an invariant, a postcondition) may be added after this guard.
+			p.pendingNE = append(p.pendingNE, [2]linExpr{a, b})
+			p.idxPending = append(p.idxPending, t.X, t.Y)
 		}
 		// once an Index-like result is known non-negative, its postcondition applies
 		p.indexPost(t.X)
@@ -935,7 +1023,7 @@ func (p *prover) indexPost(v ssa.Value) {
 		return
 	}
 	e := p.lin(v)
-	if p.prove(e) {
+	if p.proveRaw(e) {
 		p.ge(p.lenOf(c.Call.Args[0]), e.add(subLen, 1))
 	}
 }
@@ -960,6 +1048,11 @@ func toRow(e linExpr) fmRow {
 
 // prove: facts ⊢ goal >= 0 ?
 func (p *prover) prove(goal linExpr) bool {
+	p.refresh()
+	return p.proveRaw(goal)
+}
+
+func (p *prover) proveRaw(goal linExpr) bool {
 	// refute facts ∧ (goal <= -1)  i.e.  -goal - 1 >= 0
 	rows := []fmRow{toRow(goal.scale(-1).add(newLin(1), -1))}
 	// only facts sharing variables transitively with the goal matter; keep all but cap size
